@@ -260,7 +260,9 @@ def run_ascii_edge():
     viol = []
     evals = 0
     texts = ["", "a" * 300, " !#$%&()*+,-./:;<=>?@[]^_`{|}~", "0123456789", "x" * 255 + "y", "tab\there", "caf\u00e9", "{{a}}", ".db 1", "a = 1",
-             "*=0x8000", "/* c */", "; c", "a\\\\b"]
+             "*=0x8000", "/* c */", "; c", "a\\\\b",
+             # text that looks like the escapes of OTHER directives (.text's [0xNN], splices, macro calls): plain characters here
+             "HP[0x30]", "[0x41][0x42]", "x[0x7f", "{{blk}}", "mm(1)", "[0xZZ]", "100%", "a\\nb"]
     for t in texts:
         for tmpl in (".ascii '%s'\n", "{\n.ascii '%s'\n}\n", ".ascii '%s'\n.ascii '%s'\n", ".macro ma() {\n.ascii '%s'\n}\nma()\n"):
             n = tmpl.count("%s")
